@@ -106,6 +106,12 @@ CHECKS = {
             "to the code by comparing annotation texts of every generated element/property in Coq, and the oracle reads the generated annotation with `typing` and "
             "checks every attribute of every built model.",
             "full on the model (Annot.v + Validate.v) under the two named premises"),
+    "C03": ("Coq: serializer model SerJson.v with theorems on the emitted required/properties, refutations of the two repaired defects, generated keyword/type tables; decided per run by recomputing every generated document in Coq and evaluating the Draft-6 reference semantics (Spec6.v) on it against the element's verdicts",
+            "PARTIAL proof.  Proved: C03_required_complete, C03_properties_keyed_by_source; refuted on the old behaviour: C03_old_*_refuted (fixes f0c8af1, aba574c).  "
+            "The meaning-preservation statement over all trees is not a theorem yet: each run (i) recomputes every generated document with SerJson.ser_doc inside Coq and "
+            "requires equality with serialize_json's output, (ii) evaluates Spec6.v on the resolved document for values aimed at the tree and requires the element's verdict "
+            "to lie in the tolerated set, (iii) checks json.dumps, $ref resolution and the Draft-6 metaschema (jsonschema).  Findings K15, K21.",
+            "partial (lemmas + refutations; meaning preservation by model recomputation and the Spec6 oracle evaluated in Coq)"),
 }
 
 REASONS_PENDING = "check under construction in this session: not yet claimed"
